@@ -154,6 +154,7 @@ func (b *Broker) Close() {
 	}
 	b.Svc.Close()
 	b.cancel()
+	b.Svc.VerifRelease()
 	if !b.Opts.KeepDir {
 		os.RemoveAll(b.Dir)
 	}
